@@ -1559,7 +1559,10 @@ class Interp:
         return None
 
     def s_Return(self, node, frame):
-        return ('return', self.eval(node.value, frame) if node.value is not None else None)
+        v = self.eval(node.value, frame) if node.value is not None else None
+        if frame.info.node is getattr(self, 'cover_node', None):
+            self.st.reached.add(node.lineno)      # (reachability cover: see verify.verify_function)
+        return ('return', v)
 
     def s_Break(self, node, frame):
         return ('break',)
@@ -1746,6 +1749,8 @@ class Interp:
         return None
 
     def s_Raise(self, node, frame):
+        if frame.info.node is getattr(self, 'cover_node', None):
+            self.st.reached.add(node.lineno)
         if node.exc is None:
             cur = getattr(frame, '_cur_exc', None) or self._current_exception
             if cur is None:
